@@ -3,6 +3,7 @@ Helper lemmas for the writer families (C03, C05, C06): byte-string slicing, reco
 concatenations of encoded fields, `wr` frames, the output stream (`adjust` + `write`).
 -/
 import ElfioVerif.Model.Writer
+import ElfioVerif.Lemmas.WriterSites
 import ElfioVerif.Lemmas.Records
 import ElfioVerif.Props.C08
 set_option linter.unusedSimpArgs false
@@ -238,10 +239,11 @@ theorem save_eq (o : Obj) (os : OStream) :
           | none => pure { obj := { o1 with hdr := some h0, segs := segs1, curPos := savePos0 o1 h0 }, os := os, ok := false }
           | some (lay, done) => pure (saveTail o1 os h0 segs1 lay done)) := by
   unfold save
+  simp only [save_phoff_toNat, save_shoff0_toNat]
   cases o.hdr with
-  | none => rfl
+  | none => simp only [save_entry_refused_none, if_true]
   | some h =>
-    simp only []
+    simp only [save_entry_refused_some]
     split
     · rfl
     · apply bind_congr; intro segs1
@@ -397,7 +399,7 @@ theorem wsdStep_frame {c : Cls} {g : Seg} {ss : BitVec 64} {st st' : WsdSt} {idx
           apply Placed.off
           split
           · rename_i hn
-            exact Placed.addr _ (Placed.refl _) (by simpa using hn)
+            exact Placed.addr _ (Placed.refl _) (by simpa [wsd_addr_missing] using hn)
           · exact Placed.refl _
 
 theorem wsdLoop_frame {c : Cls} {g : Seg} {ss : BitVec 64} (l : List (BitVec 16)) {st st' : WsdSt}
@@ -487,6 +489,7 @@ theorem layoutSegment_eq (c : Cls) (phoff : BitVec 64) (pe pn : BitVec 16) (lay 
         | none => pure none
         | some st => pure (some (st.lay, segFinish c g p.2.1 st))) := by
   unfold layoutSegment segStartOf
+  simp only [lseg_has_members0_count, lseg_has_members_count, lseg_fresh_count, decide_eq_true_eq]
   cases g.secs.head? with
   | none =>
     simp only [pure_bind]
@@ -830,6 +833,7 @@ theorem layoutLoose_frame (c : Cls) (segs : List Seg) (l : List SecBuf) (i : Nat
   | nil => exact ⟨[], by simp [layoutLoose], FrameL.refl (Placed.refl (c := c)) _⟩
   | cons s rest ih =>
     unfold layoutLoose
+    simp only [setOffsetLoose_eq]
     split
     · obtain ⟨l', e, f⟩ := ih (i + 1) _ (setOffset c s _ :: acc)
       exact ⟨setOffset c s (if lsws_need_align s.addrAlign pos then lsws_aligned pos s.addrAlign else pos) :: l',
@@ -1221,6 +1225,7 @@ theorem saveSection_eq (c : Cls) (enc : Enc) (shoff : BitVec 64) (se : BitVec 16
     (hs : shoff.toNat < 9223372036854775808) (ho : secWritten b = true → b.offset.toNat < 9223372036854775808) :
     saveSection c enc shoff se os b = applyWrites os (secWrites c enc shoff se b) := by
   unfold saveSection secWrites applyWrites
+  rw [secWritesData_eq]
   have e1 : shoff.toInt + Int.ofNat se.toNat * Int.ofNat b.index = ((shoff.toNat + se.toNat * b.index : Nat) : Int) := by
     rw [toInt_of_lt shoff hs]
     simp only [Int.ofNat_eq_natCast, Int.natCast_add, Int.natCast_mul]
@@ -1566,21 +1571,22 @@ theorem layoutLoose_eq (c : Cls) (segs : List Seg) (l : List SecBuf) (i : Nat) (
   | nil => simp [layoutLoose, looseSpec]
   | cons s rest ih =>
     unfold layoutLoose looseSpec
+    simp only [lsws_advance_eq, setOffsetLoose_eq]
     split
     · simp only
-      rw [ih]; simp
+      rw [ih]; simp <;> exact ⟨rfl, rfl⟩
     · rw [ih]; simp
 
 theorem setOffset_fields (c : Cls) (s : SecBuf) (p : BitVec 64) :
     (setOffset c s p).stype = s.stype ∧ (setOffset c s p).size = s.size ∧ (setOffset c s p).addrAlign = s.addrAlign ∧
     setOffset c (setOffset c s p) p = setOffset c s p := by
   by_cases h : (s.index != 0) = true
-  · have e : setOffset c s p = { s with offset := truncA c p } := by unfold setOffset; rw [if_pos h]
+  · have e : setOffset c s p = { s with offset := truncA c p } := by rw [setOffset_eq, if_pos h]
     have e' : setOffset c { s with offset := truncA c p } p = { s with offset := truncA c p } := by
-      unfold setOffset; rw [if_pos h]
+      rw [setOffset_eq, if_pos h]
     rw [e, e']
     exact ⟨rfl, rfl, rfl, rfl⟩
-  · have e : setOffset c s p = s := by unfold setOffset; rw [if_neg h]
+  · have e : setOffset c s p = s := by rw [setOffset_eq, if_neg h]
     rw [e, e]
     exact ⟨rfl, rfl, rfl, rfl⟩
 
@@ -1707,9 +1713,10 @@ theorem wsdStep_eq (c : Cls) (g : Seg) (ss : BitVec 64) (st : WsdSt) (idx : BitV
       | none => rfl
       | some gap =>
         simp only
+        rw [wsd_generated_skip_eq]
         by_cases hgen : generated = true
         · rw [if_pos hgen, if_pos hgen]; rfl
-        · rw [if_neg hgen, if_neg hgen]
+        · rw [if_neg hgen, if_neg hgen, wsd_addr_missing_eq, wsd_occupies_eq]
           obtain ⟨e1, e2⟩ := stepPlace_fields c g ss sec (wsd_cursor_gap st.lay.pos gap)
           unfold stepPlace at e1 e2 ⊢
           simp only [e1, e2, applyOut]
@@ -2038,7 +2045,8 @@ theorem stepPlace_eq (c : Cls) (g : Seg) (ss : BitVec 64) (sec : SecBuf) (p : Bi
       { sec with addr := if sec.addrSet then sec.addr else truncA c (wsd_new_addr g.vaddr p ss),
                  addrSet := true,
                  offset := if (sec.index != 0) = true then truncA c p else sec.offset } := by
-  unfold stepPlace setOffset
+  unfold stepPlace
+  rw [setOffset_eq]
   cases ha : sec.addrSet
   · by_cases hi : (sec.index != 0) = true
     · simp only [Bool.not_false, if_true, hi, Bool.false_eq_true, if_false]
@@ -2148,7 +2156,7 @@ theorem calcSegAlign_fix {secs : List SecBuf} {g : Seg}
     simp only [List.foldlM_cons, hs, pure_bind]
     have : BitVec.ult g.align s.addrAlign = false := by
       simp only [BitVec.ult, decide_eq_false_iff_not]; omega
-    rw [this]
+    rw [save_csa_raise_eq, this]
     simp only [Bool.false_eq_true, if_false]
     exact ih (fun i hi => h i (List.mem_cons_of_mem _ hi))
 
@@ -2212,8 +2220,8 @@ theorem orderFront_go_id (n : Nat) (fuel i ns : Nat) (wl : Array Seg) (hn : n = 
           have := Array.mem_of_getElem? hs
           simpa using this
         have := h si hm
-        have hc : (i != ns && si.offsetSet && si.offset == 0) = false := by
-          rw [Bool.and_assoc, this, Bool.and_false]
+        have hc : save_gos_front (BitVec.ofNat 64 i) (BitVec.ofNat 64 ns) si.offsetSet si.offset = false :=
+          save_gos_front_false _ _ _ _ this
         rw [hc]
         simp only [Bool.false_eq_true, if_false]
         exact ih _ _
